@@ -195,3 +195,87 @@ def check_and_run(pipe, left, right, machine=None):
     cfg = checked_cfg(m, pipe)
     l, r = pandora.run(m, left, right, cfg)
     return l, r, m, cfg
+
+
+# ----------------------------------------------------------------------------------------------
+# random legal pipelines with parameters (numeric workloads)
+# ----------------------------------------------------------------------------------------------
+def random_pipeline(rng, rows, cols, validation=None, filling=None, allow_cbca=True, allow_conf=True,
+                    post=("refinement", "filter", "validation"), max_post=4, methods=("sad", "ssd", "census", "zncc"),
+                    repeat_bias=0.0, subpix_choices=(1, 2, 4), allow_mfi=True):
+    """Returns (keys, params, info). Domain rules: window <= image, cbca needs >= 3x3, bilateral/median windows
+    inside the image."""
+    method = methods[int(rng.integers(0, len(methods)))]
+    wmax = min(rows, cols)
+    wins = [w for w in ((3, 5) if method == "census" else (1, 3, 5, 7)) if w <= wmax] or [1]
+    if method == "census" and wins == [1]:
+        method, wins = "sad", [1]
+    w = int(wins[int(rng.integers(0, len(wins)))])
+    subpix = int(subpix_choices[int(rng.integers(0, len(subpix_choices)))])
+    kinds = ["matching_cost"]
+    params_by_pos = [{"matching_cost_method": method, "window_size": w, "subpix": subpix}]
+    has_ib = False
+    if allow_cbca and rng.random() < 0.3 and min(rows, cols) >= max(3, w):
+        kinds.append("aggregation")
+        params_by_pos.append({"aggregation_method": "cbca", "cbca_distance": int(rng.integers(1, 6)),
+                              "cbca_intensity": float(rng.choice([5.0, 30.0, 100.0]))})
+    if allow_conf:
+        for _ in range(int(rng.integers(0, 3))):
+            cm = ["std_intensity", "ambiguity", "risk", "interval_bounds"][int(rng.integers(0, 4))]
+            p = {"confidence_method": cm}
+            if cm in ("ambiguity", "risk"):
+                p["eta_max"] = float(rng.choice([0.3, 0.7]))
+                p["eta_step"] = float(rng.choice([0.1, 0.05]))
+            if cm == "interval_bounds":
+                has_ib = True
+            kinds.append("cost_volume_confidence")
+            params_by_pos.append(p)
+    kinds.append("disparity")
+    inv = [-9999, float("nan"), 1e6][int(rng.integers(0, 3))]
+    params_by_pos.append({"disparity_method": "wta", "invalid_disparity": inv})
+    n_post = int(rng.integers(0, max_post + 1))
+    want_val = validation if validation is not None else (rng.random() < 0.5)
+    seq = []
+    for _ in range(n_post):
+        if seq and rng.random() < repeat_bias:
+            seq.append(seq[-1])
+        else:
+            seq.append(post[int(rng.integers(0, len(post)))])
+    if want_val and "validation" not in seq and "validation" in post:
+        seq.insert(int(rng.integers(0, len(seq) + 1)), "validation")
+    if not want_val:
+        seq = [s for s in seq if s != "validation"]
+    for s in seq:
+        kinds.append(s)
+        if s == "refinement":
+            params_by_pos.append({"refinement_method": ["vfit", "quadratic"][int(rng.integers(0, 2))]})
+        elif s == "filter":
+            fm = ["median", "bilateral", "median_for_intervals"][int(rng.integers(0, 3 if (has_ib and allow_mfi) else 2))]
+            if fm == "bilateral":
+                params_by_pos.append({"filter_method": "bilateral", "sigma_space": float(rng.choice([0.5, 1.0, 1.4])),
+                                      "sigma_color": float(rng.choice([1.0, 2.0]))})
+            else:
+                sizes = [s_ for s_ in (1, 3, 5) if s_ <= min(rows, cols)]
+                params_by_pos.append({"filter_method": fm, "filter_size": int(sizes[int(rng.integers(0, len(sizes)))])})
+        elif s == "validation":
+            p = {"validation_method": "cross_checking_accurate",
+                 "cross_checking_threshold": float(rng.choice([0.0, 0.4, 1.0, 2.5]))}
+            fill = filling if filling is not None else [None, "mc-cnn", "sgm"][int(rng.integers(0, 3))]
+            if fill:
+                p["interpolated_disparity"] = fill
+            params_by_pos.append(p)
+    keys = keys_for(kinds)
+    params = {k: p for k, p in zip(keys, params_by_pos)}
+    # a median_for_intervals filter filters the bands of one interval_bounds step, named by its suffix
+    ib_keys = [k for k in keys if params[k].get("confidence_method") == "interval_bounds"]
+    for k in keys:
+        if params[k].get("filter_method") == "median_for_intervals" and ib_keys:
+            sfx = ib_keys[-1].split(".")[1] if "." in ib_keys[-1] else ""
+            params[k]["interval_indicator"] = sfx
+    info = {"method": method, "window": w, "subpix": subpix, "validation": "validation" in kinds,
+            "invalid_disparity": inv}
+    return keys, params, info
+
+
+def build_pipe(keys, params):
+    return {k: copy.deepcopy(params[k]) for k in keys}
